@@ -56,6 +56,13 @@ std::vector<K> make_queries(const std::vector<K> &data, Rng &rng, size_t budget,
     std::vector<size_t> picks;
     if (firsts.size() <= budget) picks = firsts;
     else for (size_t j = 0; j < budget; ++j) picks.push_back(firsts[rng.below(firsts.size())]);
+    {   // the keys around the widest gaps (ends and starts of clusters: last entry of a bucket / slice, first of the next)
+        std::vector<std::pair<Wide<K>, size_t>> gaps;
+        for (size_t i = 0; i + 1 < n; ++i) if ((Wide<K>) data[i + 1] - (Wide<K>) data[i] > 4096) gaps.emplace_back((Wide<K>) data[i + 1] - (Wide<K>) data[i], i);
+        std::sort(gaps.rbegin(), gaps.rend());
+        for (size_t g = 0; g < gaps.size() && g < 12; ++g)
+            for (long long d = -3; d <= 1; ++d) { long long i = (long long) gaps[g].second + d; if (i >= 0 && (size_t) i < n) picks.push_back((size_t) i); }
+    }
     if (chunks > 1 && n / (size_t) chunks > 0)      // every key next to a chunk boundary
         for (size_t b = n / (size_t) chunks; b < n; b += n / (size_t) chunks)
             for (long long d = -2; d <= 1; ++d) if ((long long) b + d >= 0 && b + d < n) picks.push_back(size_t(b + d));
@@ -322,7 +329,7 @@ void drive(const Plan &p, uint64_t salt, int exhaustive_level, size_t eps, bool 
             if (tiny_chunks_ok && a.size() >= 4 && wc % 2 == 0) run(VPlan{"exhaustive", a.size(), wc % 3, {"exhaustive", "forced_chunks"}, rng.next(), a, 2 + (wc / 2) % 2});
         });
     }
-    const std::vector<std::string> kinds = {"runs", "sawtooth", "collinear", "steps", "random", "convex", "curve_far_dense"};
+    const std::vector<std::string> kinds = {"runs", "sawtooth", "collinear", "steps", "random", "convex", "curve_far_dense", "clusters_irregular"};
     int reps = quick ? 1 : 4;
     // runs of duplicates that end at, start at or straddle the chunk boundaries of a forced chunked build
     // (chunks of at least 2 Epsilon + 6 elements: segments of different chunks stay apart in rank, as in the library)
@@ -343,7 +350,8 @@ void drive(const Plan &p, uint64_t salt, int exhaustive_level, size_t eps, bool 
             for (int where = 0; where < 6; ++where) {
                 if (small_type && (where == 3 || where == 4)) continue;
                 size_t nmax = quick ? 300 : 3000;
-                size_t n = where >= 3 ? (small_type ? 8 + rng.below(120) : 20 + rng.below(nmax)) : 1 + rng.below(rng.chance(1, 3) ? 12 : nmax);
+                if (kind == "clusters_irregular" && (small_type || where == 3 || where == 4)) continue;   // (has its own spread)
+                size_t n = kind == "clusters_irregular" ? 500 + rng.below(700) : where >= 3 ? (small_type ? 8 + rng.below(120) : 20 + rng.below(nmax)) : 1 + rng.below(rng.chance(1, 3) ? 12 : nmax);
                 VPlan pl{kind, n, where, {kind}, rng.next(), {}};
                 if (where == 1) pl.tags.push_back("at_lowest");
                 if (where == 2) pl.tags.push_back("ends_at_max-1");
